@@ -120,3 +120,18 @@ Definition conv_from_ev (to_bool : bool) (sr : Z) (a : option Z) : Z :=
   | None => 0
   | Some v => if to_bool then b2z 1 (truthy v) else v * sr
   end.
+
+(** ** edge values of EV* and EV+ forests (forest::getEdgeForValue /
+    getValueForEdge).  A single-precision value is its 32-bit pattern; the
+    value handed to an EV* forest is first rounded to single precision (done by
+    the caller of this model: the pattern [f] is the rounded value). *)
+Definition float_is_zero (f : Z) : bool := Z.eqb (Z.land f 2147483647) 0.
+
+(** (transparent?, stored pattern) *)
+Definition evt_encode (f : Z) : bool * Z := (float_is_zero f, f).
+Definition evt_decode (e : bool * Z) : Z := if fst e then 0 else snd e.
+
+(** EV+: (infinite?, stored value) *)
+Definition evp_encode (v : option Z) : bool * Z :=
+  match v with None => (true, 0) | Some z => (false, z) end.
+Definition evp_decode (e : bool * Z) : option Z := if fst e then None else Some (snd e).
